@@ -10,6 +10,7 @@ package main
 
 import (
 	"bytes"
+	"context"
 	"fmt"
 	"hash/fnv"
 	"net"
@@ -20,6 +21,9 @@ import (
 	"time"
 
 	"storj.io/drpc"
+	"storj.io/drpc/drpcmanager"
+	"storj.io/drpc/drpcstream"
+	"storj.io/drpc/drpcwire"
 
 	"verifharness/census"
 	"verifharness/payload"
@@ -294,6 +298,22 @@ func scenario(id string, seed uint64, sh shape, held bool, real string) runner.R
 	}
 	s.Tag = 1 + uint64(r.Intn(1000))
 	s.Clean = sh.name != "closer-race" && !closer
+	// one case in five receives single messages through the raw entry point and keeps the slices it was
+	// given until the end: nothing handed to the application may be altered afterwards
+	rawRecv := payload.Hash(seed, 0xC1A4)%5 == 0 && sh.name != "unary" && !held
+	if rawRecv {
+		for i, a := range s.Client {
+			if a.Op == 'r' {
+				s.Client[i].Op = 'v'
+			}
+		}
+		for i, a := range s.Handler {
+			if a.Op == 'r' {
+				s.Handler[i].Op = 'v'
+			}
+		}
+		cfg.Desc += " raw-recv"
+	}
 	s.Client = withFlush(s.Client, manual)
 	s.Handler = withFlush(s.Handler, manual)
 	if !prog.Validate(s) {
@@ -596,6 +616,11 @@ func scenario(id string, seed uint64, sh shape, held bool, real string) runner.R
 		}
 	}
 	_ = bytes.Equal
+	for _, l := range x.Logs() {
+		for _, h := range l.HeldChanged() {
+			failf("%s", h)
+		}
+	}
 	if len(fails) > 0 {
 		k := strings.Map(func(r rune) rune {
 			if r >= '0' && r <= '9' {
@@ -707,6 +732,95 @@ func transientWriteFault(id string, seed uint64) runner.Result {
 	return res
 }
 
+// abandonedThenNext: a sender is cut off between two frames of a message that had nearly filled the
+// receiver's maximum packet size (its RPC is soft-cancelled while a late frame is in the transport), and
+// the next RPC on the connection then sends an ordinary message. The receiver must drop the unfinished
+// packet and deliver the next message whole, however the transport cuts the bytes into reads.
+func abandonedThenNext(id string, seed uint64) runner.Result {
+	r := &payload.SplitMix{S: seed}
+	// the message is k full frames and a small last one; the reader's maximum leaves room for little more
+	split := 256
+	k := 12 + r.Intn(5)
+	big := k*split + 10 + r.Intn(30)
+	max := big + r.Intn(30)
+	mopts := drpcmanager.Options{SoftCancel: true, WriterBufferSize: 1, Reader: drpcwire.ReaderOptions{MaximumBufferSize: max}, Stream: drpcstream.Options{SplitSize: split}}
+	nextLen := 300 + r.Intn(max/2)
+	handler := rig.HandlerFunc(func(stream drpc.Stream, rpc string) error {
+		var m []byte
+		if err := stream.MsgRecv(&m, payload.Enc{}); err != nil {
+			return nil
+		}
+		n := nextLen
+		if rpc == "/big" {
+			n = big
+		}
+		out := payload.Make(7, 1, 0, 0, n-payload.HeaderLen)
+		stream.MsgSend(&out, payload.Enc{})
+		<-stream.Context().Done()
+		return nil
+	})
+	chunk := simnet.Chunker(simnet.ChunkK{K: 1 + r.Intn(40)})
+	if r.Intn(4) == 0 {
+		chunk = &simnet.ChunkRand{K: 64, State: seed}
+	}
+	rg := rig.New(rig.Config{Net: simnet.Opts{Cap: -1, ChunkA: chunk}, Client: mopts, Server: mopts}, handler)
+	defer rg.Teardown()
+	ctx1, cancel1 := context.WithCancel(context.Background())
+	defer cancel1()
+	st1, err := rg.Conn.NewStream(ctx1, "/big", payload.Enc{})
+	if err != nil {
+		return runner.Inconcl(id, "NewStream: "+err.Error())
+	}
+	// the server's writes: frames of the big message, one write each; park the last but one (or the one before)
+	nframes := k + 1
+	gate := rg.Pair.B.GateWriteIdx(nframes-2, simnet.After) // the last full frame: the small one never goes out
+	gate.SucceedOnClose = true
+	req := payload.Make(1, 0, 0, 0, 5)
+	st1.MsgSend(&req, payload.Enc{})
+	desc := fmt.Sprintf("abandoned-then-next: reader maximum %d, a %d-byte message cut off after about %d of %d frames by a soft cancel, then a %d-byte message of the next RPC; client reads in chunks of %T", max, big, nframes-1, nframes, nextLen, chunk)
+	if s, _ := census.QuiesceOr(gate.Reached(), rig.Watchdog); s != "ready" {
+		gate.Release()
+		return runner.Inconcl(id, desc+": the server's late frame was not reached")
+	}
+	cancel1()
+	census.Quiesce(rig.Watchdog)
+	gate.Release()
+	census.Quiesce(rig.Watchdog)
+	st1.Close()
+	if rig.IsClosed(rg.Conn.Closed()) {
+		return runner.Hold(id, desc+" (the cancel closed the connection)", false)
+	}
+	op := rig.Go("next", func() (interface{}, error) {
+		st2, err := rg.Conn.NewStream(context.Background(), "/next", payload.Enc{})
+		if err != nil {
+			return nil, err
+		}
+		defer st2.Close()
+		if err := st2.MsgSend(&req, payload.Enc{}); err != nil {
+			return nil, err
+		}
+		var out []byte
+		if err := st2.MsgRecv(&out, payload.Enc{}); err != nil {
+			return nil, err
+		}
+		return out, nil
+	})
+	if !op.Wait() {
+		_, snap := census.Quiesce(rig.Watchdog)
+		return runner.Violation(id, "delivery:next-rpc-blocked-after-an-abandoned-message", desc+"\n"+census.Dump(census.InDRPC(snap)))
+	}
+	if op.Err != nil {
+		return runner.Violation(id, "delivery:next-rpc-fails-after-an-abandoned-message", desc+"\nthe next RPC, whose handler's send succeeded, did not deliver its message: "+rig.ErrStr(op.Err))
+	}
+	got := op.Val.([]byte)
+	if m, perr := payload.Parse(got); perr != nil || len(got) != nextLen || m.Tag != 7 {
+		return runner.Violation(id, "delivery:next-message-damaged-after-an-abandoned-message", fmt.Sprintf("%s\nreceived %d bytes (parse error %v), want the %d-byte message intact", desc, len(got), perr, nextLen))
+	}
+	res := runner.Hold(id, desc, true)
+	res.Events = 2
+	return res
+}
+
 func describeScript(s *prog.Script) string {
 	return "client=[" + actsString(s.Client) + "] handler=[" + actsString(s.Handler) + "]"
 }
@@ -717,6 +831,11 @@ func gen(tier string, seed uint64) []runner.Scenario {
 		n = 3000
 	}
 	var out []runner.Scenario
+	for i := 0; i < n/2; i++ {
+		i := i
+		id := fmt.Sprintf("abandoned-then-next/%d", i)
+		out = append(out, runner.Scenario{ID: id, Run: func() runner.Result { return abandonedThenNext(id, payload.Hash(seed, 0xC01A, uint64(i))) }})
+	}
 	for i := 0; i < 2*n; i++ {
 		i := i
 		id := fmt.Sprintf("transient-write-fault/%d", i)
